@@ -209,7 +209,7 @@ class Check(CheckBase):
     level = "exploration"
     title = "Output paths are unique, file-system safe and confined to the destination"
     rule = ("all ordered pairs (quick) / triples (thorough) of names over: 21 AKAI file names and 14 AKAI volume names "
-            "(punctuation, blanks, dots, names equal after sanitising, L/R forms); 25 hostile ASCII names (separators, "
+            "(punctuation, blanks, dots, names equal after sanitising, L/R forms, pair stems ending in a dot); 25 hostile ASCII names (separators, "
             "'..', absolute path into the watched area, quotes, control and non-ASCII characters, '(2)' forms, empty stems) as "
             "Roland sample / performance / volume names (also below the pseudo volume that collects orphan performances, with and "
             "without real volumes on the disk) and as cue TITLEs; export into <scratch>/w/deep/dest with the "
@@ -234,6 +234,12 @@ class Check(CheckBase):
                 cases.append({"kind": "akai_files", "names": list(t)})
         # two L/R pairs with one stem need four names (both tiers)
         for t in itertools.product(["A", "A L", "A R", "A-L", "A-R"], repeat=4):
+            cases.append({"kind": "akai_files", "names": list(t)})
+        # pair stems that end in a dot / blank next to the plain stem (a name "tidied" after its uniqueness was established)
+        dots = ["A", "A.", "A. L", "A. R", "A L", "A R", "A .L", "A .R"]
+        for t in itertools.product(dots, repeat=3):
+            cases.append({"kind": "akai_files", "names": list(t)})
+        for t in itertools.product(["A", "A. L", "A. R", "A L", "A R"], repeat=4):
             cases.append({"kind": "akai_files", "names": list(t)})
         for t in tuples(AKAI_DIR, k):
             cases.append({"kind": "akai_dirs", "names": t})
